@@ -6,7 +6,7 @@ CONSTANTS
   Kinds = {"zero"}
   ScrapeSets = {{"a", "b"}, {"a"}, {"c"}}
   MaxClk = 9
-  OOOBack = {1}
+  OOOBack = {2}
   Snap = FALSE
   FastOpts = {FALSE}
   Fast0 = FALSE
